@@ -20,7 +20,7 @@ var evalCodeText = map[int]string{
 	7:  "TryEval result/effects differ from its tree-level meaning",
 	8:  "the implementation's program fails the static stack-bound validation",
 	9:  "registered operators invoked during Compile differ from the model's constant-folding log",
-	14: "event mode, same program as the model's: the events emitted (OP_EXEC payloads, LOOP position/node/stack snapshot) differ from those of the proven evaluation loop on that program",
+	14: "event mode: the events emitted (OP_EXEC payloads, LOOP node and stack snapshot; positions erased) differ from those of the proven evaluation loop on the model's event-mode program of the same optimised tree",
 	15: "the implementation's optimised tree differs from the model's AND Eval returns something else than the model-optimised tree means",
 	17: "the implementation's optimised tree differs from the model's and Eval returns ANOTHER VALUE than the model-optimised tree (whose value is the source's, by C02's theorem)",
 	16: "the implementation's optimised tree differs from the model's and TryEval gives ANOTHER ANSWER (value or DNE) than the model-optimised tree means",
@@ -147,7 +147,7 @@ func mkEvalCase(sp *EvalSpec) evalOutcome {
 			nontrivial = nontrivial || len(o.Plain) > 0 || len(vp.Nodes) > 3
 			// the same evaluation through the library's OWN context (NewCtxFromVars: key-indexed or name-indexed
 			// fetcher over the configuration's key map) must give the same answer as the harness's name-indexed fetcher
-			if !rc.Undefined && !rc.Events && !rc.Debug && o.Panic == nil {
+			if !rc.Events && !rc.Debug && o.Panic == nil {
 				plain, ok := map[string]interface{}{}, true
 				for _, n := range rc.VarNames {
 					v, bound := sp.Bind.Vals[n]
@@ -164,7 +164,7 @@ func mkEvalCase(sp *EvalSpec) evalOutcome {
 						defer func() { lpan = recover() }()
 						lv, lerr = e.Eval(eval.NewCtxFromVars(b.Conf, plain))
 					})
-					if lpan != nil || (lerr == nil) != (o.Err == nil) || (lerr == nil && !valEq(lv, o.Val)) {
+					if lpan != nil || (lerr == nil) != (o.Err == nil) || (lerr == nil && !valEq(lv, o.Val)) || (lerr != nil && o.Err != nil && coqErr(lerr) != coqErr(o.Err)) {
 						directV = &DirectViolation{What: "Eval with the library's own context (NewCtxFromVars over the configuration's key map) differs from Eval with a fetcher that reads the same values by name",
 							Sig: "library-ctx-eval", Sample: map[string]interface{}{"source": clip(src, 300), "config": rc.Describe(), "key_map": fmt.Sprint(b.Conf.VariableKeyMap), "values": fmt.Sprint(plain),
 								"library_context": fmt.Sprintf("%v / %v / %v", lv, lerr, lpan), "by_name": fmt.Sprintf("%v / %v", o.Val, o.Err)}}
@@ -310,10 +310,15 @@ func genC01(c *RunCtx) []*Batch {
 		if t.Kind != "op" && t.Kind != "if" {
 			t = gop("c_id", t)
 		}
-		rc := &RunCfg{Opts: optSubset(0, false), Undefined: r.Intn(5) == 0, Events: false, KeyGap: r.Intn(3) == 0}
+		rc := &RunCfg{Opts: optSubset(0, false), Undefined: r.Intn(5) == 0, Events: false, KeyGap: r.Intn(3) == 0, Shadow: r.Intn(8) == 0}
 		nb := 1 + r.Intn(2)
 		for j := 0; j < nb; j++ {
-			addEval(c, b, &EvalSpec{Tree: t, RC: rc, Bind: randBinding(r), DoEval: true, DoTry: false})
+			bd := randBinding(r)
+			if r.Intn(6) == 0 { // a variable bound to nil is bound: Eval computes with nil
+				bd.Vals[pick(r, intVars)] = nil
+				bd.Vals[pick(r, strVars)] = nil
+			}
+			addEval(c, b, &EvalSpec{Tree: t, RC: rc, Bind: bd, DoEval: true, DoTry: false})
 		}
 	}
 	for _, t := range boundaryTrees() {
